@@ -140,6 +140,66 @@ def explore(ctx):
                     'upper<<12 + lower == v mod 2^32', {'kind': 'pair'})
     if good:
         ctx.sample({'source': good[0][1], 'words': good[0][3]})
+    moving_pairs(ctx, asm)
+
+
+def moving_pairs(ctx, asm):
+    """Pairs whose operand depends on a label that MOVES after the pair was formed (items behind shrink, aligns settle):
+    the two halves must still split ONE value -- the final one.  Final label values are swept across the bit-11 carry
+    boundary (0x800 mod 0x1000), where a half taken from a stale value is off by 0x1000."""
+    import pipeline
+    bases = [0, 0x7ffff000, 0xfffff000, 0x08000000]
+    finals = range(0x7d0, 0x830, 4) if not ctx.quick() else range(0x7e4, 0x81c, 4)
+    q, cases = [], []
+    for fin in finals:
+        for shrink in ((4, 8, 16) if ctx.quick() else (4, 8, 12, 16, 24)):
+            for form in range(4):
+                base = bases[(fin // 4 + shrink) % len(bases)]
+                k = shrink // 4
+                if form == 0:
+                    head, val = 'li t0, target', lambda L: L
+                elif form == 1:
+                    head, val = 'li t0, %position(target, {})'.format(base), lambda L, b=base: L + b
+                elif form == 2:
+                    head, val = 'lui t0, %hi(target)\naddi t0, t0, %lo(target)', lambda L: L
+                else:
+                    head, val = 'li t0, target + 4', lambda L: L + 4
+                body = 'li x5, 1\n' * k                     # each shrinks from 8 to 4 after `head` was expanded
+                used = 8 + 4 * k
+                gap = fin - used
+                if gap < 0:
+                    continue
+                src = head + '\n' + body + 'string ' + 'g' * gap + '\ntarget:\nnop\n'
+                for compress in (False, True):
+                    cases.append((src, compress, val, fin))
+    for src, compress, val, fin in cases:
+        ctx.evaluations += 1
+        real = pipeline.run_real(asm, src, compress)
+        if real['status'] != 'OK':
+            ctx.cex('moving-label pair refused: {}'.format(pipeline.brief(real)), {'kind': 'pair', 'source': src, 'v': None, 'compress': compress},
+                    pipeline.brief(real), 'assembles', {'kind': 'moving-pair'})
+            continue
+        L = dict(real['labels'])['target']
+        v = val(L)
+        first = [c for c in real['chunks'] if c[1] in (1, 2)]      # chunks of source lines 1 (and 2 for the explicit pair)
+        first = first[:2]
+        dec = ctx.spec.batch([('d32 {}'.format(int.from_bytes(c[2], 'little')) if len(c[2]) == 4 else 'x16 {}'.format(int.from_bytes(c[2], 'little'))) for c in first])
+        try:
+            a = dec[0].split()
+            if a[0] == 'lui' and len(dec) > 1:
+                b = dec[1].split()
+                got = ((int(a[2]) << 12) + int(b[3])) % (1 << 32)
+            elif a[0] == 'addi':
+                got = int(a[3]) % (1 << 32)
+            else:
+                got = None
+        except Exception:
+            got = None
+        ctx.nontriv(('moving', L & 0xfff, compress))
+        ctx.count('moving-pairs')
+        if got != v % (1 << 32):
+            ctx.cex('pair for a moving label: final value {:#x} but the pair rebuilds {} ({})'.format(v % (1 << 32), hex(got) if got is not None else None, dec),
+                    {'kind': 'moving-pair', 'source': src, 'compress': compress, 'v': v}, dec, hex(v % (1 << 32)), {'kind': 'moving-pair'})
 
 
 def replay(ctx, rec):
@@ -149,6 +209,20 @@ def replay(ctx, rec):
         v = inp['v']
         hi, lo = asm.relocate_hi(v), asm.relocate_lo(v)
         return not ((-(1 << 19) <= hi < (1 << 19)) and (-(1 << 11) <= lo < (1 << 11)) and ((hi << 12) + lo - v) % (1 << 32) == 0)
+    if inp.get('kind') == 'moving-pair':
+        before = len(ctx.counterexamples)
+        import pipeline
+        real = pipeline.run_real(asm, inp['source'], inp.get('compress', False))
+        if real['status'] != 'OK':
+            return True
+        ws = harness.words32(bytes(real['bytes']))[:2]
+        ans = ctx.spec.batch(['d32 {}'.format(w) for w in ws])
+        try:
+            a, b = ans[0].split(), ans[1].split()
+            got = ((int(a[2]) << 12) + int(b[3])) % (1 << 32) if a[0] == 'lui' else int(a[3]) % (1 << 32)
+        except Exception:
+            return True
+        return got != inp['v'] % (1 << 32)
     try:
         b = asm.assemble(inp['source'])
     except Exception:
